@@ -428,11 +428,14 @@ def translate(rec, want_debug=False):
         return sorted(live_out.get(bi, set()) - live_in.get(sb, set()))
 
     consec = []
+    renames = []
 
     def original_op(bn, an, bi, sp):
         """I op of an original instruction (before node bn, after node an)"""
         reads, writes, clob, pclob = [], [], [], []
         bops, aops = bn.get("ops", []), an.get("ops", [])
+        if bn.get("i") != an.get("i") and bn["t"] == "inst" and not (bn.get("i") == "adr" and an.get("i") == "add"):
+            renames.append([bn.get("i", ""), an.get("i", "")])
         for k, info in enumerate(bn.get("rw") or []):
             nlead = info.get("cons", 0)
             if nlead > 1 and k + nlead <= len(aops) and all(o["k"] == "r" for o in aops[k:k + nlead]):
@@ -746,7 +749,7 @@ def translate(rec, want_debug=False):
     for sv, off in stack_base.items():
         ust.append([off, off + F.vregs[sv]["sz"]])
     res = {"fid": rec["id"], "arch": F.arch, "nloc": max(1, len(F.locs)), "entry": entry, "vsz": vsz or [0], "code": code,
-           "cells": [[F.locs[("c", off)], off, off + sz] for off, sz in cells], "ust": ust, "consec": consec}
+           "cells": [[F.locs[("c", off)], off, off + sz] for off, sz in cells], "ust": ust, "consec": consec, "renames": renames}
     if want_debug:
         res["_locs"] = {str(v): list(k) for k, v in F.locs.items()}
         res["_dropped_reads"] = F.dropped_reads
